@@ -203,7 +203,7 @@ def matrix_cases():
     for mask in MASKS:
         for t in loads:
             cases.append({"vt": [], "dyn": False, "vals": [], "fields": copy.deepcopy(fields), "kw": {},
-                          "ops": [((), ("load", copy.deepcopy(t), True))] if t else [], "mask": mask, "kind": "matrix"})
+                          "ops": [((), ("load", copy.deepcopy(t), True))] if t else [], "mask": mask, "kind": "matrix", "ctype": True})
     # the same through constructor keywords / assignment / append, and a dynamic schema
     for mask in ("*", "[hidden]", None):
         cases.append({"vt": [], "dyn": True, "vals": [], "fields": copy.deepcopy(fields), "kw": {"pw": "ctor-secret-1234", "extra": "dyn-public"},
@@ -213,7 +213,7 @@ def matrix_cases():
                               ((("item", "items", 1),), ("set", "pw", "in-place-secret-99", "attr")),
                               ((), ("setidx", "items", 0, {"pw": "setidx-secret-55"})),
                               ((), ("reset", "pw"))],
-                      "mask": mask, "kind": "matrix-ops"})
+                      "mask": mask, "kind": "matrix-ops", "ctype": True})
     return cases
 
 
@@ -230,6 +230,7 @@ def generate(rng, tier):
         c = directed_case(rng)
         c["mask"] = rng.choice(MASKS_RANDOM)
         c["kind"] = "directed"
+        c["ctype"] = rng.random() < 0.35
         cases.append(c)
     for c in cases:
         c["prop"] = "C10"
@@ -252,6 +253,39 @@ def _render(fn):
         return ("ok", fn())
     except Exception as e:  # noqa
         return ("err", _base.errkind(e))
+
+
+def to_config_types(schema, counter):
+    """the same schema with every nested Schema turned into a configuration type (make_type), in sub-configuration
+    position (ConfigTypeField) and as the item type of lists"""
+    from cincoconfig import Schema, ListField, make_type
+    for k, fld in list(schema._fields.items()):
+        if isinstance(fld, Schema):
+            to_config_types(fld, counter)
+            counter[0] += 1
+            schema._add_field(k, make_type(fld, "MaskT%d" % counter[0]))
+        elif isinstance(fld, ListField) and isinstance(fld.field, Schema):
+            to_config_types(fld.field, counter)
+            counter[0] += 1
+            schema._add_field(k, ListField(make_type(fld.field, "MaskT%d" % counter[0]), required=fld.required))
+
+
+def run_variant(c):
+    """implementation only: the history's root-level operations on the config-type variant of the schema, rendered twice"""
+    b = _base.Built(c)
+    try:
+        to_config_types(b.schema, [0])
+        root = b.schema(**copy.deepcopy(c["kw"]))
+    except Exception as e:  # noqa
+        return {"ctor": type(e).__name__}
+    outs = []
+    for ps, o in c["ops"]:
+        if ps:
+            continue                      # s_configops.navigate addresses Schema-built sub-configurations only
+        outs.append(_base.apply_op(root, ps, o))
+    mask = c["mask"]
+    return {"root": root, "built": b, "outs": outs, "plain": _render(lambda: root.to_tree()),
+            "masked": _render(lambda: root.to_tree(sensitive_mask=mask))}
 
 
 def impl(c):
@@ -282,6 +316,8 @@ def impl(c):
             d["back"] = _render(lambda: formatter.loads(root, d["doc"][1]))
         docs[fmt] = d
     c["_docs"] = docs
+    if c.get("ctype"):
+        c["_variant"] = run_variant(c)
     return (plain, masked)
 
 
@@ -412,6 +448,17 @@ def oracle(c, obs):
     check_cfg(c["fields"], c["_root"], plain[1], masked[1], mask, "", bad, secrets, publics)
     if mask is None and not same(plain[1], masked[1]):
         bad.append("sensitive_mask=None changed the tree")
+    # configuration types (make_type) in place of nested schemas: same property, checked on the implementation
+    v = c.get("_variant")
+    if v is not None and "root" in v:
+        if v["plain"][0] != "ok" or v["masked"][0] != "ok":
+            bad.append("config-type variant: to_tree raised %r / %r" % (v["plain"][1], v["masked"][1]))
+        else:
+            vbad = []
+            check_cfg(c["fields"], v["root"], v["plain"][1], v["masked"][1], mask, "", vbad, [], [])
+            bad += ["config-type variant: " + m for m in vbad]
+            if mask is None and not same(v["plain"][1], v["masked"][1]):
+                bad.append("config-type variant: sensitive_mask=None changed the tree")
     # documents
     pub_text = []
     flat_text(publics, pub_text)
@@ -501,6 +548,16 @@ def tags(c, obs):
             t.add("%s:%s" % (key[1:], fmt))
     if c.get("_secrets_checked"):
         t.add("secret-bytes-searched")
+    v = c.get("_variant")
+    if v is not None:
+        t.add("config-type-variant" if "root" in v else "config-type-variant-ctor-rejected")
+        if "root" in v and v["masked"][0] == "ok" and v["plain"][0] == "ok":
+            vt = set()
+            masked_positions(v["plain"][1], v["masked"][1], vt)
+            if "list-item-rendered" in vt:
+                t.add("config-type-variant:list-items")
+            if any(x.startswith("masked-value") for x in vt):
+                t.add("config-type-variant:masked-something")
     return t
 
 
